@@ -69,7 +69,7 @@ def replay_call(modname, call_src, timeout=120):
             'else:\n'
             '    print("REPLAY " + json.dumps({"ret": bool(r)}))\n')
     p = subprocess.run([sys.executable, '-c', code], capture_output=True, text=True, timeout=timeout, cwd=VERIF,
-                       env=dict(os.environ, PYTHONPATH=VERIF))
+                       env=dict(os.environ, PYTHONPATH=(os.environ.get('VERIF_REPO', '') + ':' if os.environ.get('VERIF_REPO') else '') + VERIF))
     for line in p.stdout.splitlines():
         if line.startswith('REPLAY '):
             d = json.loads(line[7:])
@@ -125,7 +125,7 @@ def main(prop, argv, modname='props.c16_targets', text=None, return_only=False):
                 '        bad.append([fn, repr(a), type(e).__name__ + ": " + str(e)[:120]])\n'
                 'print("CORPUS " + json.dumps({"n": len(items), "bad": bad}))\n')
         p = subprocess.run([sys.executable, '-c', code], capture_output=True, text=True, timeout=600, cwd=VERIF,
-                           env=dict(os.environ, PYTHONPATH=VERIF))
+                           env=dict(os.environ, PYTHONPATH=(os.environ.get('VERIF_REPO', '') + ':' if os.environ.get('VERIF_REPO') else '') + VERIF))
         got = [json.loads(l[7:]) for l in p.stdout.splitlines() if l.startswith('CORPUS ')]
         if not got:
             harness_errors.append('corpus run failed: ' + (p.stderr or p.stdout)[-600:])
